@@ -141,7 +141,7 @@ class SchemaGen:
         T = m['types']
         nscal, nenum, ninp, nint, nobj, nuni = (r.randint(0, 2), r.randint(0, 2), r.randint(0, 3), r.randint(0, 2), r.randint(1, 4), r.randint(0, 2))
         for i in range(nscal):
-            T[f'Sc{i}'] = {'kind': 'scalar', 'desc': self.text(), 'specified_by': r.choice([None, None, 'https://example.com/spec', 'urn:x'])}
+            T[f'Sc{i}'] = {'kind': 'scalar', 'desc': self.text(), 'specified_by': r.choice([None, None, 'https://example.com/spec', 'urn:x', ''])}
         for i in range(nenum):
             vals = {}
             for j in range(r.randint(1, 4)):
@@ -351,7 +351,7 @@ def render_sdl(m, order=None):
         k = t['kind']
         head = desc_sdl(t['desc'])
         if k == 'scalar':
-            out.append(head + f'scalar {name}' + (f' @specifiedBy(url: {q(t["specified_by"])})' if t['specified_by'] else ''))
+            out.append(head + f'scalar {name}' + (f' @specifiedBy(url: {q(t["specified_by"])})' if t['specified_by'] is not None else ''))
         elif k in ('object', 'interface'):
             impl = (' implements ' + ' & '.join(t['interfaces'])) if t['interfaces'] else ''
             fields = '\n'.join(desc_sdl(f['desc'], '  ') + f'  {fn}{args_sdl(f["args"])}: {ref_str(f["type"])}{dep_sdl(f["deprecation"])}'
@@ -524,7 +524,7 @@ def split_extension(rng, m):
         elif k == 'scalar':
             # @specifiedBy moves to an extension; further extensions that only apply a directive come before or after it
             ext = []
-            if t.get('specified_by') and rng.random() < 0.6:
+            if t.get('specified_by') is not None and rng.random() < 0.6:
                 ext.append(f'extend scalar {name} @specifiedBy(url: {q(t["specified_by"])})')
                 t['specified_by'] = None
             on_scalar = [dn for dn, d in m['directives'].items() if 'SCALAR' in d['locations']
